@@ -126,7 +126,7 @@ DevA(r) == B2N(r.method # "GET") + B2N(r.conn # "Upgrade") + B2N(r.upg # "websoc
 RowsBFull == {[Base EXCEPT !.origin = o, !.check = chk, !.offered = off, !.cfg = cf, !.ext = e, !.comp = cp, !.respExt = rx,
                            !.respProto = rp, !.key = k, !.conn = c] :
                 o \in OriginClasses, chk \in CheckClasses, off \in OfferClasses, cf \in CfgClasses, e \in ExtClasses,
-                cp \in BOOLEAN, rx \in BOOLEAN, rp \in {"", "a"}, k \in {"random16", "rfc-sample"}, c \in {"Upgrade", "keep-alive, Upgrade"}}
+                cp \in BOOLEAN, rx \in BOOLEAN, rp \in {"", "a"}, k \in {"random16", "rfc-sample"}, c \in {"keep-alive, Upgrade"}}
 RowsBQuick ==
   LET V == [Base EXCEPT !.key = "rfc-sample", !.conn = "keep-alive, Upgrade"] IN
        {[V EXCEPT !.origin = o, !.check = chk, !.offered = off, !.ext = e, !.comp = TRUE] :
